@@ -352,6 +352,38 @@ def contains_nonint_literal(e):
     return False
 
 
+FIX = {"abs": False, "is": False, "ct": False, "lt": False}     # set by probe_fixes() in main()
+
+
+def probe_fixes():
+    """Which of the repairs of the known findings does the tree under test contain?  Each flag is decided on
+    one witness of the class; the models (Props/C05_model.v) take the flags as parameters, the structural
+    correspondence T3 then checks the WHOLE class against the selected variant and T2 checks its soundness."""
+    import uflgen
+    from ufl.classes import Abs, Conj
+    f, v = uflgen.coef(()), uflgen.coef((2,))
+    M, T = uflgen.coef((2, 2)), uflgen.coef((2, 2, 2))
+    i, j, k, m = Index(), Index(), Index(), Index()
+    mi = G5.mi_of
+    out = {}
+    out["abs"] = not isinstance(Abs(Conj(f)).ufl_operands[0], Conj)
+    is1 = IndexSum(ComponentTensor(Indexed(M, mi((i, k))), mi((k,))), mi((i,)))
+    out["is"] = isinstance(Indexed(is1, mi((i,))), Indexed)
+    L = ListTensor(Indexed(v, mi((j,))), C.Product(ufl.as_ufl(2), Indexed(v, mi((j,)))))
+    try:
+        Indexed(ComponentTensor(Indexed(L, mi((m,))), mi((j,))), mi((0,)))
+        out["ct"] = True
+    except KeyError:
+        out["ct"] = False
+    rows = [ComponentTensor(Indexed(T, mi((r, i, j))), mi((j, i))) for r in (0, 1)]
+    out["lt"] = ListTensor(*rows) is not T
+    return out
+
+
+def coqb(b):
+    return "true" if b else "false"
+
+
 def model_call(req, s):
     """Gallina text of the model applied to the serialised operands: (text, is_option) or None"""
     g = req.group
@@ -369,11 +401,13 @@ def model_call(req, s):
         if G5.is_literal(a) and G5.is_literal(b) and int(b._value) < 0:
             return None
         return f"(mk_power ff_none {s.e(a)} {s.e(b)})", True
-    if g in ("Abs", "Conj", "Real", "Imag"):
+    if g == "Abs":
+        return f"(mk_abs_sel ff_none {coqb(FIX['abs'])} {s.e(ops[0])})", False
+    if g in ("Conj", "Real", "Imag"):
         return f"(mk_{g.lower()} ff_none {s.e(ops[0])})", False
     if g == "Indexed":
         A, mi = req.info["A"], req.info["mi"]
-        return f"(mk_indexed le_any ff_none 24 {s.e(A)} {s.mi(tuple(mi))})", True
+        return f"(mk_indexed le_any ff_none {coqb(FIX['is'])} {coqb(FIX['ct'])} 24 {s.e(A)} {s.mi(tuple(mi))})", True
     if g == "IndexSum":
         x = req.extra_indices[0]
         d = G5.fi_of(ops[0]).get(x.count(), 0)
@@ -383,7 +417,7 @@ def model_call(req, s):
         pairs = [(x, fi.get(x.count(), 0)) for x in req.extra_indices]
         return f"(mk_component_tensor {s.e(ops[0])} {s.ixd(pairs)})", True
     if g == "ListTensor":
-        return "(mk_list_tensor [" + "; ".join(s.e(e) for e in req.info["es"]) + "])", True
+        return f"(mk_list_tensor {coqb(FIX['lt'])} [" + "; ".join(s.e(e) for e in req.info["es"]) + "])", True
     if g == "conditional":
         c = req.info.get("cond")
         if c is None:
@@ -581,6 +615,8 @@ def replay(run, data):
 def main(run):
     rng = random.Random(1000 + run.seed)
     known = {k["id"]: k for k in vlib.load_known_findings("C05")}
+    FIX.update(probe_fixes())
+    run.extra["repairs_detected_in_tree"] = dict(FIX)
     groups = [g for g in os.environ.get("VERIF_C05_GROUPS", "").split(",") if g]    # self-tests only
     P, reqs = G5.all_requests(run.tier, rng, groups=groups, seed=run.seed)
     if groups:
@@ -624,12 +660,13 @@ def main(run):
                       any(x is not y for x, y in zip(o.ufl_operands, ops))
                       for o, (_, ops) in zip(req.operands, before) if ops is not None)
         if req.exc is None and (has_cycle(req.out) or mutated):
-            known_or_violation(req, "the call corrupts an operand: the result is not a finite expression "
-                                    "(an existing node was re-initialised)", {"observed": "cyclic operand graph"})
-            # repair the operand so that later requests are not affected
+            # repair the operand first (so that it can be printed and later requests are not affected)
             for o, (_, ops) in zip(req.operands, before):
                 if ops is not None:
                     o.ufl_operands = ops
+            known_or_violation(req, "the call corrupts an operand: the result is not a finite expression "
+                                    "(an existing node was re-initialised with itself as operand)",
+                               {"observed": "cyclic operand graph / operand tuple of an existing node overwritten"})
             continue
         if req.must_raise:
             if req.exc is None:
@@ -670,7 +707,11 @@ def main(run):
             if not validate_literal_fold(req):
                 violation(req, "literal folding returns a wrong literal", {"observed": str(req.out)})
                 continue
-        # pre-screen with the numeric oracle: decides KNOWN-FINDING membership only
+        # requests in the class of a known finding: replayed on the real code.  A request that still fails is a
+        # KNOWN-FINDING while the finding is listed as open (the defect-faithful model must reproduce the wrong
+        # result: T3 only) and goes through the normal obligations otherwise (=> VIOLATION: regression of a
+        # repaired finding).  A request that no longer fails is checked like every other request, T3 included:
+        # the model variant is selected by the repair flags detected above.
         kc = known_class(req)
         if kc and kc in known:
             am = attr_mismatch(req)
@@ -680,8 +721,6 @@ def main(run):
                 bump("known:" + kc)
                 cases.append(RCase(f"q{n}", req, value=False, t2=False))   # model reproduces the wrong result
                 continue
-            cases.append(RCase(f"q{n}", req, value=bool(value), t3=False))  # defect not (or no longer) present
-            continue
         rc = RCase(f"q{n}", req, value=bool(value))
         if value and quick_screen(req, run.seed + n):
             suspects.append(rc)
